@@ -1,6 +1,7 @@
 package rules
 
 import (
+	"reflect"
 	"go/ast"
 	"go/constant"
 	"go/types"
@@ -325,53 +326,182 @@ func c05Param(r *core.Run, fn *core.FuncInfo) {
 	}
 	r.Sites++
 	r.Check(n == 1 && !inLoop, "C05.before", core.ShortKey(fn.Obj)+" -> BranchRegister once", w.Pos(call.Pos()), "one BranchRegister call, not in a loop", "BranchRegister is called more than once or in a loop: more than one branch per prepare")
-	cl := findCompositeLit(fn, call.Args[len(call.Args)-1])
+	cl, owner := findLitDeep(fn, call.Args[len(call.Args)-1], 4)
 	if cl == nil {
-		r.Undecided("C05.param", key+"literal", w.Pos(call.Pos()), "the request is not a composite literal (or a variable initialised by one)")
+		r.Undecided("C05.param", key+"literal", w.Pos(call.Pos()), "the request is not a composite literal (or a variable / helper result / field initialised by one)")
 		return
 	}
+	r.Fn(owner)
+	// origins are computed where the literal is written and expressed in the registration step's terms
+	fieldOrigin := func(name string, depth int) string {
+		return originViaStr(fn, owner, origin(owner, litField(cl, name), depth), depth)
+	}
 	pos := w.Pos(cl.Pos())
-	bt := origin(fn, litField(cl, "BranchType"), 4)
+	bt := fieldOrigin("BranchType", 4)
 	r.Check(bt == "const:BranchTypeTCC", "C05.param", key+"BranchType", pos, "BranchType = BranchTypeTCC", "BranchType is "+bt+", not the constant BranchTypeTCC")
-	rid := origin(fn, litField(cl, "ResourceId"), 4)
+	rid := fieldOrigin("ResourceId", 4)
 	r.Check(strings.HasPrefix(rid, "call:pkg/rm.(TwoPhaseAction).GetActionName("), "C05.param", key+"ResourceId", pos, "ResourceId = GetActionName()", "ResourceId derives from "+rid+", not from the action name")
-	xid := origin(fn, litField(cl, "Xid"), 4)
+	xid := fieldOrigin("Xid", 4)
 	r.Check(xid == "call:pkg/tm.GetXID(param:ctx)", "C05.param", key+"Xid", pos, "Xid = tm.GetXID(ctx)", "Xid derives from "+xid+", not from tm.GetXID of the caller's context")
-	ad := origin(fn, litField(cl, "ApplicationData"), 6)
-	okAD := strings.HasPrefix(ad, "call:encoding/json.Marshal(lit:map[string]interface{}{const:ActionContext: ") || strings.HasPrefix(ad, "call:encoding/json.Marshal(lit:map[string]any{const:ActionContext: ")
-	r.Check(okAD, "C05.param", key+"ApplicationData", pos, "ApplicationData = JSON of {ActionContext: ...}", "ApplicationData derives from "+ad+", not from json.Marshal of a map keyed by constant.ActionContext")
-	// the ActionContext entry is built from the tagged parameters: the producing callee reaches a function that reads the tag constant
-	tagged := false
-	if okAD {
-		ast.Inspect(fn.Decl.Body, func(x ast.Node) bool {
+	// ApplicationData = JSON of an object whose one key is the ActionContext constant: a map literal keyed by it, or
+	// a struct whose field carries that json name; the marshal may sit in a helper
+	originFollowSingle = true
+	ad := origin(owner, litField(cl, "ApplicationData"), 6)
+	originFollowSingle = false
+	acName := ""
+	if c, ok := w.Lookup("pkg/constant", "ActionContext").(*types.Const); ok && c.Val().Kind() == constant.String {
+		acName = constant.StringVal(c.Val())
+	}
+	okAD := false
+	var acValue ast.Expr // the expression stored under the ActionContext key
+	var acFn *core.FuncInfo
+	scan := []*core.FuncInfo{owner}
+	for _, cs := range w.Calls(owner) {
+		if h := w.Info(cs.Static); h != nil && h.Pkg == owner.Pkg && h != owner {
+			scan = append(scan, h)
+		}
+	}
+	for _, g := range dedupFns(scan) {
+		ginfo := g.Pkg.TypesInfo
+		ast.Inspect(g.Decl.Body, func(x ast.Node) bool {
 			c, ok := x.(*ast.CallExpr)
-			if !ok {
+			if !ok || len(c.Args) != 1 {
 				return true
 			}
-			callee := w.Info(core.Callee(info, c))
-			if callee == nil || callee.Pkg.PkgPath != pTCC || len(c.Args) == 0 {
+			if f := core.Callee(ginfo, c); f == nil || f.Pkg() == nil || !strings.HasSuffix(f.Pkg().Path(), "json") || f.Name() != "Marshal" {
 				return true
 			}
-			if !strings.Contains(ad, "call:"+core.ShortKey(callee.Obj)+"(") {
+			lit, lowner := findLitDeep(g, c.Args[0], 3)
+			if lit == nil {
 				return true
 			}
-			if o := origin(fn, c.Args[len(c.Args)-1], 3); o != "param:params" {
+			t := lowner.Pkg.TypesInfo.TypeOf(lit)
+			if t == nil {
 				return true
 			}
-			for _, g := range reachFrom(w, []*core.FuncInfo{callee}, pTCC) {
-				ast.Inspect(g.Decl.Body, func(y ast.Node) bool {
-					if e, ok := y.(ast.Expr); ok {
-						if co := core.ConstObj(g.Pkg.TypesInfo, e); co != nil && co.Name() == "TccBusinessActionContextParameter" {
-							tagged = true
+			switch u := t.Underlying().(type) {
+			case *types.Map:
+				for _, el := range lit.Elts {
+					if kv, ok := el.(*ast.KeyValueExpr); ok {
+						if kc := core.ConstObj(lowner.Pkg.TypesInfo, kv.Key); kc != nil && kc.Name() == "ActionContext" {
+							okAD, acValue, acFn = len(lit.Elts) == 1, kv.Value, lowner
 						}
 					}
-					return true
-				})
+				}
+			case *types.Struct:
+				for i := 0; i < u.NumFields(); i++ {
+					tag := reflect.StructTag(u.Tag(i)).Get("json")
+					if j := strings.Index(tag, ","); j >= 0 {
+						tag = tag[:j]
+					}
+					if tag == acName && acName != "" && u.NumFields() == 1 {
+						if fv := litField(lit, u.Field(i).Name()); fv != nil {
+							okAD, acValue, acFn = true, fv, lowner
+						} else if len(lit.Elts) == 1 {
+							if _, isKV := lit.Elts[0].(*ast.KeyValueExpr); !isKV {
+								okAD, acValue, acFn = true, lit.Elts[0], lowner
+							}
+						}
+					}
+				}
 			}
 			return true
 		})
 	}
+	okAD = okAD && strings.Contains(ad, "json.Marshal(")
+	r.Check(okAD, "C05.param", key+"ApplicationData", pos, "ApplicationData = JSON of {ActionContext: ...}", "ApplicationData derives from "+ad+", not from json.Marshal of an object whose only key is constant.ActionContext")
+	// the ActionContext entry is built from the tagged parameters: the producing callee reaches a function that reads the tag constant
+	tagged := false
+	if okAD && acValue != nil {
+		avo := originViaStr(owner, acFn, origin(acFn, acValue, 5), 5)
+		for _, g := range dedupFns(append([]*core.FuncInfo{fn, owner}, scan...)) {
+			ginfo := g.Pkg.TypesInfo
+			ast.Inspect(g.Decl.Body, func(x ast.Node) bool {
+				c, ok := x.(*ast.CallExpr)
+				if !ok {
+					return true
+				}
+				callee := w.Info(core.Callee(ginfo, c))
+				if callee == nil || callee.Pkg.PkgPath != pTCC || len(c.Args) == 0 {
+					return true
+				}
+				if !strings.Contains(avo, "call:"+core.ShortKey(callee.Obj)+"(") && !strings.Contains(ad, "call:"+core.ShortKey(callee.Obj)+"(") {
+					// the value may reach the entry through a merge into a context object: accept a producer whose
+					// result is assigned into something the entry mentions
+					if !mentionsResultOf(g, acFn, acValue, c) {
+						return true
+					}
+				}
+				if o := originViaStr(fn, g, origin(g, c.Args[len(c.Args)-1], 3), 3); o != "param:params" {
+					return true
+				}
+				for _, h := range reachFrom(w, []*core.FuncInfo{callee}, pTCC) {
+					ast.Inspect(h.Decl.Body, func(y ast.Node) bool {
+						if e, ok := y.(ast.Expr); ok {
+							if co := core.ConstObj(h.Pkg.TypesInfo, e); co != nil && co.Name() == "TccBusinessActionContextParameter" {
+								tagged = true
+							}
+						}
+						return true
+					})
+				}
+				return true
+			})
+		}
+	}
 	r.Check(tagged, "C05.param", key+"ApplicationData from tagged parameters", pos, "the action context is built from params' fields tagged with TccBusinessActionContextParameter", "the action context sent as application data is not built from the tagged fields of params")
+}
+
+// mentionsResultOf: the value expression (in function at) mentions a variable of g that was assigned from call c, or a
+// variable that call's result was merged into (x[k] = v inside a loop over the result).
+func mentionsResultOf(g, at *core.FuncInfo, value ast.Expr, c *ast.CallExpr) bool {
+	if g != at {
+		return false
+	}
+	info := g.Pkg.TypesInfo
+	var res types.Object
+	ast.Inspect(g.Decl.Body, func(n ast.Node) bool {
+		if as, ok := n.(*ast.AssignStmt); ok && len(as.Rhs) == 1 && ast.Unparen(as.Rhs[0]) == ast.Expr(c) && len(as.Lhs) >= 1 {
+			res = core.ObjOf(info, as.Lhs[0])
+		}
+		return true
+	})
+	if res == nil {
+		return false
+	}
+	if mentions(info, value, res) {
+		return true
+	}
+	// merged: for k, v := range res { X[k] = v }  with value mentioning X's root
+	merged := false
+	ast.Inspect(g.Decl.Body, func(n ast.Node) bool {
+		rs, ok := n.(*ast.RangeStmt)
+		if !ok || core.ObjOf(info, rs.X) != res {
+			return true
+		}
+		ast.Inspect(rs.Body, func(m ast.Node) bool {
+			if as, ok := m.(*ast.AssignStmt); ok {
+				for _, l := range as.Lhs {
+					if ix, ok := ast.Unparen(l).(*ast.IndexExpr); ok {
+						root := ast.Unparen(ix.X)
+						for {
+							if s2, ok := root.(*ast.SelectorExpr); ok {
+								root = ast.Unparen(s2.X)
+								continue
+							}
+							break
+						}
+						if o := core.ObjOf(info, root); o != nil && mentions(info, value, o) {
+							merged = true
+						}
+					}
+				}
+			}
+			return true
+		})
+		return true
+	})
+	return merged
 }
 
 // c05Ctx: the action context handed to the user method is rebuilt from the request's ids.
